@@ -154,3 +154,5 @@ func wdStart(limit time.Duration) {
 		}
 	}()
 }
+
+func readAll(path string) ([]byte, error) { return os.ReadFile(path) }
